@@ -164,7 +164,7 @@ def cases(tier, rng, ifaces):
             left = len(stream)
             while left > 0:
                 k = rng.randint(1, 9); sizes.append(k); left -= k
-            op = f"PROC {name} 64 {hx(stream)} {','.join(map(str, sizes))}"
+            op = f"PROC {name} 256 {hx(stream)} {','.join(map(str, sizes))}"
         out.append(Case(op, history_oracle, {'cap': cap, 'events': events, 'kind': 'HISTORY'}))
     return out
 
